@@ -44,8 +44,17 @@ fn one(out: &mut Out, st: &mut St, rng: &mut Rng, known: &Known, cfg: &Cfg, kind
         st.skipped_known += 1;
         return;
     }
+    let pcm = gen_pcm_ext(rng, kind, cfg.ch as usize, cfg.bps, frames);
+    one_pcm(out, st, rng, known, cfg, kind, pcm, wr, all_readers);
+}
+
+fn one_pcm(out: &mut Out, st: &mut St, rng: &mut Rng, known: &Known, cfg: &Cfg, kind: &str, pcm: Vec<i32>, wr: Writer, all_readers: bool) {
+    if cfg.hits_known_writer_defect(known) {
+        st.skipped_known += 1;
+        return;
+    }
     let ch = cfg.ch as usize;
-    let pcm = gen_pcm_ext(rng, kind, ch, cfg.bps, frames);
+    let frames = pcm.len() / ch;
     let unit = if wr == Writer::Channels { (cfg.bs as usize).max(1) } else { (cfg.bs as usize * ch).max(1) };
     let total_units = if wr == Writer::Channels { frames } else { pcm.len() };
     let mode = rng.below(3);
@@ -141,6 +150,10 @@ fn main() {
                 one(&mut out, &mut st, &mut rng, &known, cfg, kind, len, wr, c == 0 && ki % 4 == 0);
             }
         }
+    }
+    // regression witnesses (DESIGN section 4): F-C01a
+    for cfg in [Cfg { padding: None, seek: SeekPol::Default, ..Cfg::default() }, Cfg::default()] {
+        one_pcm(&mut out, &mut st, &mut rng, &known, &cfg, "witness", vec![-6, -3, 2, 7], Writer::Samples, true);
     }
     // very short files: many signals per length (a block no longer than twice the predictor order)
     for len in 1..=14usize {
